@@ -36,6 +36,7 @@ type DCVictim struct {
 	CloseAtMs int    `json:"close_at_ms"`
 	Reconnect bool   `json:"reconnect"`
 	QTimeout  uint16 `json:"q_timeout"`
+	Admin     bool   `json:"admin,omitempty"`      // with Text: the text session is opened inside a binary connection by the ADMIN command
 	Text      bool   `json:"text,omitempty"`       // a text (RESP) connection: no client id, at most one request left queued
 	MoreWills int    `json:"more_wills,omitempty"` // further will LOCKs (keys 10v+8..) registered after the three standard ones
 	// Burst > 0: right after the connection has ended a new, unrelated connection sends that many
@@ -97,6 +98,14 @@ func genDisconnect(prop string, seed uint64, tier string) *Scenario {
 		vc.NQueued = vc.Chain + 1
 		vc.CloseAtMs = 300 + ch.Intn(900)
 		vc.CloseMode = []string{"client", "client", "garbage", "server_reset"}[ch.Intn(4)]
+	}
+	if a := ssched.Sub(seed, "admin"); a.Intn(4) == 0 {
+		// drawn from a generator of its own: text victims open their session inside a binary connection
+		for i := range body.Victims {
+			if body.Victims[i].Text && a.Intn(2) == 0 {
+				body.Victims[i].Admin = true
+			}
+		}
 	}
 	if q := ssched.Sub(seed, "quit"); q.Intn(5) == 0 {
 		// drawn from a generator of its own: one victim ends its connection with the QUIT command
@@ -276,7 +285,12 @@ func runDisconnect(w *World) {
 				if vc.Text {
 					cid = nextCid
 					nextCid++
-					tc, err = newTextClient(w, h, leader.addr, cid)
+					if vc.Admin {
+						tc, err = newAdminTextClient(w, h, leader.addr, cid)
+						w.probe("admin_text_victims")
+					} else {
+						tc, err = newTextClient(w, h, leader.addr, cid)
+					}
 					w.probe("text_victims")
 				} else {
 					c, cid, err = newConn(vc.ClientId)
